@@ -1,9 +1,9 @@
 package rules
 
 import (
-	"go/types"
 	"fmt"
 	"go/ast"
+	"go/types"
 	"sort"
 	"strconv"
 	"strings"
@@ -69,7 +69,7 @@ func (o *ordinal) next(k string) string {
 
 // siteKey builds "function|callee[#n]".
 func siteKey(f *ssa.Function, o *ordinal, what string) string {
-	return fnKey(f) + "|" + o.next(fnKey(f)+"|"+what)[len(fnKey(f))+1:]
+	return fnKey(f) + "|" + o.next(fnKey(f) + "|" + what)[len(fnKey(f))+1:]
 }
 
 func sortedKeys[V any](m map[string]V) []string {
@@ -316,4 +316,125 @@ func stripNum(t *an.Term) *an.Term {
 		t = t.Args[0]
 	}
 	return t
+}
+
+// ---- splitting a string at a separator, normalised ----
+
+// splitFld describes a term as field Idx of Base cut at Sep into at most N pieces (the last piece is the rest).
+type splitFld struct {
+	Base *an.Term
+	Sep  string
+	Idx  int
+	N    int
+	// present: the facts of the path establish that the field exists (N pieces were found)
+	Present bool
+}
+
+func sepOf(t *an.Term) (string, bool) {
+	if v, ok := t.ConstString(); ok {
+		return v, true
+	}
+	if v, ok := t.ConstInt(); ok && v > 0 && v < 128 {
+		return string(rune(v)), true
+	}
+	return "", false
+}
+
+// splitField recognises strings.SplitN(x, sep, n)[i], the results of (nested) strings.Cut, and the
+// strings.Index/IndexByte + slice idiom.
+func splitField(s *an.PathState, t *an.Term) (splitFld, bool) {
+	t = t.StripConv()
+	if t == nil {
+		return splitFld{}, false
+	}
+	// SplitN(x, sep, n)[i]
+	if t.Op == "load" && t.Args[0].Op == "indexaddr" {
+		ia := t.Args[0]
+		if sp, _ := ia.Args[0].CallOf(); sp != nil && ia.Args[0].Op == "call" && sp.Aux == "strings.SplitN" {
+			i, ok1 := ia.Args[1].ConstInt()
+			n, ok2 := sp.Args[2].ConstInt()
+			sep, ok3 := sepOf(sp.Args[1])
+			if ok1 && ok2 && ok3 && n > 0 && i < n {
+				f := splitFld{Base: sp.Args[0].StripConv(), Sep: sep, Idx: int(i), N: int(n)}
+				for _, a := range s.Atoms {
+					if a.Op == "==" && a.B != nil && a.B.IsConst(fmt.Sprint(n)) && a.A.IsCallTo("builtin len") {
+						if lc, _ := a.A.CallOf(); lc.Args[0].K == sp.K {
+							f.Present = true
+						}
+					}
+				}
+				return f, true
+			}
+		}
+	}
+	// Cut(y, sep)#j
+	if t.Op == "extract" {
+		if ct, j := t.CallOf(); ct != nil && ct.Aux == "strings.Cut" && (j == 0 || j == 1) {
+			sep, ok := sepOf(ct.Args[1])
+			if !ok {
+				return splitFld{}, false
+			}
+			found := extractTrue(s, ct, 2)
+			y := ct.Args[0].StripConv()
+			if pf, ok := splitField(s, y); ok && pf.Sep == sep && pf.Idx == pf.N-1 {
+				return splitFld{Base: pf.Base, Sep: sep, Idx: pf.Idx + j, N: pf.N + 1, Present: pf.Present && found}, true
+			}
+			return splitFld{Base: y, Sep: sep, Idx: j, N: 2, Present: found}, true
+		}
+	}
+	// x[:i] / x[i+len(sep):] with i = strings.Index*(x, sep)
+	if t.Op == "slice" && len(t.Args) == 4 && t.Args[3] == nil {
+		x := t.Args[0].StripConv()
+		idxCall := func(i *an.Term) (string, bool) {
+			if i == nil || i.Op != "call" || (i.Aux != "strings.IndexByte" && i.Aux != "strings.Index" && i.Aux != "strings.IndexRune") || i.Args[0].StripConv().K != x.K {
+				return "", false
+			}
+			return sepOf(i.Args[1])
+		}
+		if t.Args[1] == nil && t.Args[2] != nil {
+			if sep, ok := idxCall(t.Args[2]); ok {
+				return splitFld{Base: x, Sep: sep, Idx: 0, N: 2, Present: nonNegative(s, t.Args[2])}, true
+			}
+		}
+		if t.Args[2] == nil && t.Args[1] != nil && t.Args[1].Op == "binop" && t.Args[1].Aux == "+" {
+			if sep, ok := idxCall(t.Args[1].Args[0]); ok && t.Args[1].Args[1].IsConst(fmt.Sprint(len(sep))) {
+				return splitFld{Base: x, Sep: sep, Idx: 1, N: 2, Present: nonNegative(s, t.Args[1].Args[0])}, true
+			}
+		}
+	}
+	// x itself, on a path where the separator was not found: the "before" part is the whole string
+	for _, a := range s.Atoms {
+		if a.B == nil || a.A.Op != "call" || a.A.Args[0] == nil || a.A.Args[0].StripConv().K != t.K {
+			continue
+		}
+		switch a.A.Aux {
+		case "strings.IndexByte", "strings.Index", "strings.IndexRune":
+			if (a.Op == "<" && a.B.IsConst("0")) || (a.Op == "==" && a.B.IsConst("-1")) || (a.Op == "<=" && a.B.IsConst("-1")) {
+				if sep, ok := sepOf(a.A.Args[1]); ok {
+					return splitFld{Base: t, Sep: sep, Idx: 0, N: 2}, true
+				}
+			}
+		}
+	}
+	return splitFld{}, false
+}
+
+func nonNegative(s *an.PathState, t *an.Term) bool {
+	for _, a := range s.Atoms {
+		if a.B == nil || a.A.K != t.K {
+			continue
+		}
+		if (a.Op == ">=" && a.B.IsConst("0")) || (a.Op == ">" && a.B.IsConst("-1")) || (a.Op == "!=" && a.B.IsConst("-1")) {
+			return true
+		}
+	}
+	return false
+}
+
+func (f splitFld) is(base *an.Term, sep string, idx, n int) bool {
+	if f.Base == nil || base == nil || f.Base.K != base.K || f.Sep != sep || f.Idx != idx {
+		return false
+	}
+	// a piece in front of the rest is the same piece whatever the number of pieces asked for
+	return f.N == n || (idx < f.N-1 && idx < n-1)
 }
